@@ -221,3 +221,32 @@ def _cached_of(func):
 def cache_info(func):
     cached = _cached_of(func)
     return cached.cache_info() if cached is not None else None
+
+
+_PREHEATED = []
+
+
+def preheat_parse_caches():
+    """
+    Called once per worker process by checks whose subject is parsing: every second shard (odd VERIF_SHARD) first
+    fills both 1024-entry parse caches with 1100 other well-formed strings, so that everything parsed afterwards is a
+    cache miss with eviction - the situation of a long-running process; the other shards start cold.
+    Returns a Raised result if filling the caches itself fails, else None.
+    """
+    if _PREHEATED:
+        return None
+    _PREHEATED.append(True)
+    if int(os.environ.get("VERIF_SHARD", "0")) % 2 == 0:
+        return None
+    from ahbicht.expressions.ahb_expression_parser import parse_ahb_expression_to_single_requirement_indicator_expressions
+    from ahbicht.expressions.condition_expression_parser import parse_condition_expression_to_tree
+
+    for number in range(1100):
+        for func, text in (
+            (parse_condition_expression_to_tree, f"[{3000 + number}] U [{number % 7 + 1}]"),
+            (parse_ahb_expression_to_single_requirement_indicator_expressions, f"Muss[{3000 + number}]"),
+        ):
+            res = call(func, text)
+            if not res.ok:
+                return res
+    return None
